@@ -50,7 +50,7 @@ func c13Tier(tier string) int {
 	if tier == "thorough" {
 		return 1000000
 	}
-	return 20000
+	return 200000
 }
 
 func c13Run(c *core.Ctx, idx int) {
